@@ -103,18 +103,26 @@ impl V {
         self.n += 1;
         match self.mode {
             0 => String::new(),
-            1 => "\u{7f}\u{7f}\u{7f}".into(),
+            // all-ones flavour: three DEL characters; on odd field indices a string whose first byte equals its own
+            // byte length (what a length-prefixed "Pascal" reading of a C string would key on)
+            1 => {
+                if i % 2 == 1 {
+                    "\u{4}abc".into()
+                } else {
+                    "\u{7f}\u{7f}\u{7f}".into()
+                }
+            }
             2 => format!("s{}\u{e9}\u{65e5}", i),
             m if m >= TWO_HOT => {
                 if i == (m - TWO_HOT) / 1000 || i == (m - TWO_HOT) % 1000 {
-                    "y".repeat(70)
+                    "y".repeat(121) // 'y' = 121: first byte = length
                 } else {
                     String::new()
                 }
             }
             m => {
                 if m - 3 == i {
-                    "x".repeat(300)
+                    "x".repeat(120) // 'x' = 120: first byte = length
                 } else {
                     String::new()
                 }
